@@ -1,0 +1,23 @@
+//go:build verif
+
+package server
+
+import (
+	"github.com/ovn-org/libovsdb/database"
+	"github.com/ovn-org/libovsdb/ovsdb"
+)
+
+// Verification-only access to the monitor filters (build tag verif).
+
+// VerifFilter computes the RFC 7047 "update" notification contents a monitor
+// with the given request would be sent for a database update.
+func VerifFilter(request map[string]*ovsdb.MonitorRequest, update database.Update) ovsdb.TableUpdates {
+	m := newMonitor("verif", request, nil)
+	return m.filter(update)
+}
+
+// VerifFilter2 computes the "update2"/"update3" notification contents.
+func VerifFilter2(request map[string]*ovsdb.MonitorRequest, update database.Update) ovsdb.TableUpdates2 {
+	m := newConditionalMonitor("verif", request, nil)
+	return m.filter2(update)
+}
